@@ -376,6 +376,8 @@ class Gen:
             it2, y, kind2, what2 = self.iterable(ctx)
             if y.startswith("[") or r.random() < 0.3:
                 it2, y, what2 = self.intlist(r.randint(0, 3)), self.fresh("y"), ""
+            if form == "prod" and kind == "int" and r.random() < 0.35:
+                it2, y, what2 = "range(%s %% 4)" % x, self.fresh("y"), ""      # the second generator depends on the first variable
             br = ("[", "]") if r.random() < 0.75 else ("<<", ">>")
             e = "%s[%s, %s] for %s in %s%s %sfor %s in %s%s%s" % (br[0], val, y, x, what, it, "also " if form == "par" else "", y, what2, it2, br[1])
         v = self.fresh("v")
